@@ -61,119 +61,125 @@ def run(ctx):
     for v in bi_variants:
         if v not in ar:
             ctx.inst("C01.R1", "arity[%s]" % v, False, "no arity row", None)
-    bic = M.Fn(core.mir_fn(BCALL), BCALL)
-    regions, _ = M.variant_regions(bic, CORE + "functions::BuiltInFunction", root_param=1)
-    args_param = 2
     n_idx = 0
     per_arm = {}
-    closure_parent_arm = {}
-    # closures created inside an arm belong to that arm
-    for b in range(bic.n):
-        for s in bic.stmts(b):
-            if s["k"] == "assign" and s["rv"]["k"] == "agg" and s["rv"].get("kind") == "closure":
-                arm = M.region_of(regions, b)
-                if arm:
-                    closure_parent_arm[s["rv"]["closure"]] = arm
+    BA1 = M.BuiltinArms(core, cg)
+    bic0 = M.Fn(core.mir_fn(BCALL), BCALL)
+    for _mname, (bic, _mreg) in sorted(BA1.members.items()):
+        # BuiltInFunction::call itself and every private per-category helper it delegates to (each has its own match on self)
+        regions = _mreg if _mname == BCALL else {v_: r_ for v_, r_ in _mreg.items() if v_ in getattr(_mreg, "explicit", ())}
+        _inp = (core.hir.get(_mname) or {}).get("inputs", [])
+        args_param = next((i_ + 1 for i_, t_ in enumerate(_inp) if "Vec<blots_core::values::Value>" in t_), 2)
+        closure_parent_arm = {}
+        # closures created inside an arm belong to that arm
+        for b in range(bic.n):
+            for s in bic.stmts(b):
+                if s["k"] == "assign" and s["rv"]["k"] == "agg" and s["rv"].get("kind") == "closure":
+                    arm = M.region_of(regions, b)
+                    if arm:
+                        closure_parent_arm[s["rv"]["closure"]] = arm
 
-    def index_sites(fn, arm_of_block, is_args):
-        sites = []
-        for b in fn.call_blocks():
-            c = fn.callee(b) or ""
-            if c.endswith("as core::ops::index::Index<I>>::index") or c.endswith("as core::ops::index::IndexMut<I>>::index_mut"):
-                t = fn.term(b)
-                if not is_args(fn, t["args"][0]):
-                    continue
-                idx = t["args"][1]
-                kind, val = "var", None
-                if "int" in idx:
-                    kind, val = "const", int(idx["int"])
-                else:
-                    roots = fn.trace(idx)
-                    for r in roots:
-                        if r[0] == "agg" and "RangeFrom" in r[1]:
-                            # find the aggregate's operand
-                            for s in fn.stmts(r[2]):
-                                if s["k"] == "assign" and s["rv"]["k"] == "agg" and "RangeFrom" in s["rv"].get("adt", "") and "int" in s["rv"]["ops"][0]:
-                                    kind, val = "from", int(s["rv"]["ops"][0]["int"])
-                        elif r[0] == "agg" and "RangeFull" in r[1]:
-                            kind, val = "full", 0
-                        elif r[0] == "const":
-                            m = re.match(r"(?:const )?(\d+)_usize", r[1])
-                            if m:
-                                kind, val = "const", int(m.group(1))
-                sites.append((b, kind, val, arm_of_block(b)))
-        return sites
+        def index_sites(fn, arm_of_block, is_args):
+            sites = []
+            for b in fn.call_blocks():
+                c = fn.callee(b) or ""
+                if c.endswith("as core::ops::index::Index<I>>::index") or c.endswith("as core::ops::index::IndexMut<I>>::index_mut"):
+                    t = fn.term(b)
+                    if not is_args(fn, t["args"][0]):
+                        continue
+                    idx = t["args"][1]
+                    kind, val = "var", None
+                    if "int" in idx:
+                        kind, val = "const", int(idx["int"])
+                    else:
+                        roots = fn.trace(idx)
+                        for r in roots:
+                            if r[0] == "agg" and "RangeFrom" in r[1]:
+                                # find the aggregate's operand
+                                for s in fn.stmts(r[2]):
+                                    if s["k"] == "assign" and s["rv"]["k"] == "agg" and "RangeFrom" in s["rv"].get("adt", "") and "int" in s["rv"]["ops"][0]:
+                                        kind, val = "from", int(s["rv"]["ops"][0]["int"])
+                            elif r[0] == "agg" and "RangeFull" in r[1]:
+                                kind, val = "full", 0
+                            elif r[0] == "const":
+                                m = re.match(r"(?:const )?(\d+)_usize", r[1])
+                                if m:
+                                    kind, val = "const", int(m.group(1))
+                    sites.append((b, kind, val, arm_of_block(b)))
+            return sites
 
-    def is_args_root(fn, op):
-        roots = fn.trace(op)
-        return bool(roots) and all(r[0] == "param" and r[1] == args_param and not [p for p in r[2] if not p.startswith("as:")] for r in roots)
+        def is_args_root(fn, op):
+            roots = fn.trace(op)
+            return bool(roots) and all(r[0] == "param" and r[1] == args_param and not [p for p in r[2] if not p.startswith("as:")] for r in roots)
 
-    for b, kind, val, arm in index_sites(bic, lambda b: M.region_of(regions, b), is_args_root):
-        n_idx += 1
-        if len(arm) == 0:
-            ctx.inst("C01.R1", "index@unattributed[%d]" % n_idx, None, "index into args outside any arm region", bic.loc(b))
-            continue
-        mins = [ar[a][1] for a in arm if a in ar]
-        mn = min(mins) if mins else None
-        k = per_arm.get(tuple(arm), 0)
-        per_arm[tuple(arm)] = k + 1
-        key = "%s#args[%s]#%d" % ("|".join(arm), {"const": str(val), "from": "%s.." % val, "full": "..", "var": "?"}[kind], k)
-        if kind == "const":
-            ok = mn is not None and val < mn
-            why = "args[%d] with minimum arity %s" % (val, mn)
-            if not ok and mn is not None:
-                # an index beyond the minimum is fine when a dominating test on args.len() leaves only lengths > index
-                mxs = [ar[a][2] for a in arm if a in ar]
-                mx = None if any(m is None for m in mxs) else max(mxs)
-                lens = set(range(mn, (mx if mx is not None else mn + 6) + 1))
-                unbounded = mx is None
-                for gb in range(bic.n):
-                    for s_ in bic.stmts(gb):
-                        if s_["k"] == "assign" and s_["rv"]["k"] == "binop" and s_["rv"]["op"] in ("Eq", "Ne", "Lt", "Le", "Gt", "Ge") and "int" in s_["rv"]["b"]:
-                            ar_ = bic.trace(s_["rv"]["a"])
-                            if not any(r[0] == "call" and r[1].endswith("Vec::<T, A>::len") and is_args_root(bic, bic.term(r[2])["args"][0]) for r in ar_):
-                                continue
-                            tt = bic.term(gb)
-                            if tt["k"] != "switch" or not bic.dominates(gb, b):
-                                continue
-                            c = int(s_["rv"]["b"]["int"])
-                            zero = [x[1] for x in tt["targets"] if x[0] == "0"]
-                            if not zero:
-                                continue
-                            via_true = b in bic.reachable(tt["otherwise"]) and b not in bic.reachable(zero[0])
-                            via_false = b in bic.reachable(zero[0]) and b not in bic.reachable(tt["otherwise"])
-                            if not (via_true or via_false):
-                                continue
-                            import operator
-                            opf = {"Eq": operator.eq, "Ne": operator.ne, "Lt": operator.lt, "Le": operator.le, "Gt": operator.gt, "Ge": operator.ge}[s_["rv"]["op"]]
-                            lens = {l for l in lens if opf(l, c) == via_true}
-                            if s_["rv"]["op"] in ("Eq",) and via_true or s_["rv"]["op"] in ("Lt", "Le") and via_true or s_["rv"]["op"] in ("Ge", "Gt", "Ne") and via_false and s_["rv"]["op"] != "Ne":
-                                unbounded = False
-                ok = bool(lens) and min(lens) > val
-                why = "args[%d] beyond the minimum arity %d, under length tests that leave len(args) in %s%s" % (val, mn, sorted(lens), "+" if unbounded else "")
-            ctx.inst("C01.R1", key, ok, why, bic.loc(b))
-        elif kind in ("from", "full"):
-            ctx.inst("C01.R1", key, mn is not None and val <= mn, "args[%s..] with minimum arity %s" % (val, mn), bic.loc(b))
-        else:
-            ctx.inst("C01.R1", key, False, "variable index into args (use .get and report an error)", bic.loc(b))
-    # closures inside arms that capture args
-    bic_args_name = H.param_by_type(core.hir_fn(BCALL), "Vec<blots_core::values::Value>", "args")
-    for cn, arm in sorted(closure_parent_arm.items()):
-        if cn not in cg.fns:
-            continue
-        cf = M.Fn(cg.fns[cn], cn)
-        for b in cf.call_blocks():
-            c = cf.callee(b) or ""
-            if c.endswith("as core::ops::index::Index<I>>::index") and "alloc::vec::Vec<blots_core::values::Value>" in cf.term(b)["argtys"][0] and "int" in cf.term(b)["args"][1]:
-                # an upvar of type &Vec<Value> named args
-                # the indexed Vec<Value> is a captured variable of the closure (the arm's argument vector)
-                up = [n for n, plc in cg.fns[cn].get("debug", []) if n == bic_args_name]
-                if not up:
-                    continue
-                val = int(cf.term(b)["args"][1]["int"])
-                mins = [ar[a][1] for a in arm if a in ar]
-                mn = min(mins) if mins else None
-                ctx.inst("C01.R1", "%s#closure#args[%d]" % ("|".join(arm), val), mn is not None and val < mn, "args[%d] inside a closure of the arm; minimum arity %s" % (val, mn), cf.loc(b))
+        for b, kind, val, arm in index_sites(bic, lambda b: M.region_of(regions, b), is_args_root):
+            n_idx += 1
+            if len(arm) == 0:
+                ctx.inst("C01.R1", "index@unattributed[%d]" % n_idx, None, "index into args outside any arm region", bic.loc(b))
+                continue
+            mins = [ar[a][1] for a in arm if a in ar]
+            mn = min(mins) if mins else None
+            k = per_arm.get(tuple(arm), 0)
+            per_arm[tuple(arm)] = k + 1
+            key = "%s#args[%s]#%d" % ("|".join(arm), {"const": str(val), "from": "%s.." % val, "full": "..", "var": "?"}[kind], k)
+            if kind == "const":
+                ok = mn is not None and val < mn
+                why = "args[%d] with minimum arity %s" % (val, mn)
+                if not ok and mn is not None:
+                    # an index beyond the minimum is fine when a dominating test on args.len() leaves only lengths > index
+                    mxs = [ar[a][2] for a in arm if a in ar]
+                    mx = None if any(m is None for m in mxs) else max(mxs)
+                    lens = set(range(mn, (mx if mx is not None else mn + 6) + 1))
+                    unbounded = mx is None
+                    for gb in range(bic.n):
+                        for s_ in bic.stmts(gb):
+                            if s_["k"] == "assign" and s_["rv"]["k"] == "binop" and s_["rv"]["op"] in ("Eq", "Ne", "Lt", "Le", "Gt", "Ge") and "int" in s_["rv"]["b"]:
+                                ar_ = bic.trace(s_["rv"]["a"])
+                                if not any(r[0] == "call" and r[1].endswith("Vec::<T, A>::len") and is_args_root(bic, bic.term(r[2])["args"][0]) for r in ar_):
+                                    continue
+                                tt = bic.term(gb)
+                                if tt["k"] != "switch" or not bic.dominates(gb, b):
+                                    continue
+                                c = int(s_["rv"]["b"]["int"])
+                                zero = [x[1] for x in tt["targets"] if x[0] == "0"]
+                                if not zero:
+                                    continue
+                                via_true = b in bic.reachable(tt["otherwise"]) and b not in bic.reachable(zero[0])
+                                via_false = b in bic.reachable(zero[0]) and b not in bic.reachable(tt["otherwise"])
+                                if not (via_true or via_false):
+                                    continue
+                                import operator
+                                opf = {"Eq": operator.eq, "Ne": operator.ne, "Lt": operator.lt, "Le": operator.le, "Gt": operator.gt, "Ge": operator.ge}[s_["rv"]["op"]]
+                                lens = {l for l in lens if opf(l, c) == via_true}
+                                if s_["rv"]["op"] in ("Eq",) and via_true or s_["rv"]["op"] in ("Lt", "Le") and via_true or s_["rv"]["op"] in ("Ge", "Gt", "Ne") and via_false and s_["rv"]["op"] != "Ne":
+                                    unbounded = False
+                    ok = bool(lens) and min(lens) > val
+                    why = "args[%d] beyond the minimum arity %d, under length tests that leave len(args) in %s%s" % (val, mn, sorted(lens), "+" if unbounded else "")
+                ctx.inst("C01.R1", key, ok, why, bic.loc(b))
+            elif kind in ("from", "full"):
+                ctx.inst("C01.R1", key, mn is not None and val <= mn, "args[%s..] with minimum arity %s" % (val, mn), bic.loc(b))
+            else:
+                ctx.inst("C01.R1", key, False, "variable index into args (use .get and report an error)", bic.loc(b))
+        # closures inside arms that capture args
+        bic_args_name = H.param_by_type(core.hir_fn(BCALL), "Vec<blots_core::values::Value>", "args")
+        for cn, arm in sorted(closure_parent_arm.items()):
+            if cn not in cg.fns:
+                continue
+            cf = M.Fn(cg.fns[cn], cn)
+            for b in cf.call_blocks():
+                c = cf.callee(b) or ""
+                if c.endswith("as core::ops::index::Index<I>>::index") and "alloc::vec::Vec<blots_core::values::Value>" in cf.term(b)["argtys"][0] and "int" in cf.term(b)["args"][1]:
+                    # an upvar of type &Vec<Value> named args
+                    # the indexed Vec<Value> is a captured variable of the closure (the arm's argument vector)
+                    up = [n for n, plc in cg.fns[cn].get("debug", []) if n == bic_args_name]
+                    if not up:
+                        continue
+                    val = int(cf.term(b)["args"][1]["int"])
+                    mins = [ar[a][1] for a in arm if a in ar]
+                    mn = min(mins) if mins else None
+                    ctx.inst("C01.R1", "%s#closure#args[%d]" % ("|".join(arm), val), mn is not None and val < mn, "args[%d] inside a closure of the arm; minimum arity %s" % (val, mn), cf.loc(b))
+    bic = bic0
+    regions, _ = M.variant_regions(bic, CORE + "functions::BuiltInFunction", root_param=1)
     ctx.units["constant_index_sites_into_args"] = n_idx
     # the call gate
     fc = M.Fn(core.mir_fn(FCALL), FCALL)
@@ -253,6 +259,7 @@ def run(ctx):
 
     # ---------------- R3 / R4 comparators
     ctx.rule("C01.R3", "no Option<Ordering>::unwrap/expect on the result of a float partial_cmp (NaN is a first-class number: 0/0)", floor=1)
+    BA4 = M.BuiltinArms(core, cg)
     ctx.rule("C01.R4", "a comparator handed to slice::sort_by is a total order: it does not map 'incomparable' to Equal while ordering other pairs (Rust's sort panics on detected order violations)", floor=2)
     n3 = 0
     for n in local:
@@ -273,7 +280,7 @@ def run(ctx):
             c = fn.callee(b) or ""
             if c in ("alloc::slice::<impl [T]>::sort_by", "alloc::slice::<impl [T]>::sort_unstable_by", "core::slice::<impl [T]>::sort_unstable_by") and not n.startswith(CORE + "stats::"):
                 clos = [x for x in fn.term(b)["func"]["fn"].get("closures", []) if not x.startswith("fn:")]
-                arm = M.region_of(regions, b) if n == BCALL else []
+                arm = BA4.arm(n, b)
                 for cn in clos:
                     cf = M.Fn(cg.fns[cn], cn) if cn in cg.fns else None
                     if cf is None:
@@ -282,7 +289,7 @@ def run(ctx):
                     total = any(x.endswith("total_cmp") for x in callees) or any(x.endswith("Ord>::cmp") or x.endswith("cmp::Ord::cmp") for x in callees)
                     lossy = any(x in ("core::option::Option::<T>::unwrap_or", "core::result::Result::<T, E>::unwrap_or") for x in callees) and any(x.endswith("Value::compare") or x.endswith("partial_cmp") for x in callees)
                     ok = total and not lossy
-                    ctx.inst("C01.R4", "%s%s#sort_by" % (n.replace(CORE, ""), "[" + "|".join(arm) + "]" if arm else ""), True if ok else (False if lossy else None),
+                    ctx.inst("C01.R4", "%s%s#sort_by" % (BA4.canonical(n).replace(CORE, ""), "[" + "|".join(arm) + "]" if arm else ""), True if ok else (False if lossy else None),
                              "comparator %s: total primitive: %s; maps incomparable/failed comparisons to Equal: %s" % (cn.replace(CORE, ""), total, lossy), fn.loc(b))
 
     # ---------------- R5 unsigned length arithmetic
